@@ -4,6 +4,7 @@ package main
 // them with the package and building naive-form SSA.
 
 import (
+	"encoding/json"
 	"fmt"
 	"go/ast"
 	"go/parser"
@@ -70,6 +71,7 @@ type World struct {
 	GenPath  string
 	Consts   map[string]string
 	AllFns   map[string]*ssa.Function // every function of the package by key
+	Tables   map[string]json.RawMessage
 	scanned  int
 }
 
